@@ -31,6 +31,14 @@ theorem run_none (net : Net W) (hnet : WFNet net) (s : Nat) (hs : s < net.n) (v 
     (run net net.n (St.init s)).d v = none ↔ ¬ Reachable net s v :=
   (forward_correct net hnet s hs).2.2 v
 
+/-- the run stopped at the target leaves the target with its true distance -/
+theorem shortestDistance_spec (net : Net W) (hnet : WFNet net) (s t : Nat) (hs : s < net.n) :
+    (∀ y, shortestDistance net s t none = some y ↔ IsDist net s t y) ∧
+    (shortestDistance net s t none = none ↔ ¬ Reachable net s t) := by
+  unfold shortestDistance runForward
+  rw [forward_target]
+  exact ⟨run_isDist net hnet s hs t, run_none net hnet s hs t⟩
+
 /-- anything preserved by one iteration holds in the state left by the coded loop -/
 theorem forward_preserves (net : Net W) (Q : St W → Prop)
     (hQ : ∀ st u du, Q st → popMinAux st net.n = some (u, du) → Q (settle net st u du))
